@@ -240,6 +240,23 @@ def _export_dummy_for():
     return res
 
 
+_FINITE_GUARD = " and (not (type(value) is float and (not math.isfinite(value))))"
+
+
+def _literal_test(src):
+    """the test of the literal branch of ref_value -> "exact" | "isinstance", with "-finite" appended when the
+    floats that are not finite are excluded (since fix 3bae90c: their repr is a name and they are pickled)"""
+    suffix = ""
+    if src.endswith(_FINITE_GUARD):
+        src, suffix = src[:-len(_FINITE_GUARD)], "-finite"
+    if src in ("any((type(value) is t for t in literal_types))", "type(value) in literal_types"):
+        return "exact" + suffix
+    if src in ("isinstance(value, literal_types)", "isinstance(value, tuple(literal_types))",
+               "any((isinstance(value, t) for t in literal_types))"):
+        return "isinstance" + suffix
+    return None
+
+
 def _export_ref_value():
     """ParentTranslator.ref_value (exporter.py): how a reference value is written.
     -> exportRefValueOrder: the branches of the if/elif chain in source order
@@ -292,18 +309,8 @@ def _export_ref_value():
             if not ok:
                 raise ValueError("interface branch changed")
             order.append("interface")
-        elif src in ("any((type(value) is t for t in literal_types))", "type(value) in literal_types"):
-            test = "exact"
-            order.append("literal")
-        elif src in ("any((type(value) is t for t in literal_types)) and (not (type(value) is float and "
-                     "(not math.isfinite(value))))",
-                     "type(value) in literal_types and (not (type(value) is float and (not math.isfinite(value))))"):
-            # since fix 3bae90c: nan, inf and -inf (their repr is a name) are left to the pickle branch
-            test = "exact-finite"
-            order.append("literal")
-        elif src in ("isinstance(value, literal_types)", "isinstance(value, tuple(literal_types))",
-                     "any((isinstance(value, t) for t in literal_types))"):
-            test = "isinstance"
+        elif _literal_test(src) is not None:
+            test = _literal_test(src)
             order.append("literal")
         elif src == "isinstance(value, types.ModuleType) and value in sys.modules.values()":
             if ret(node.body) != "\"_mx_sys.import_module('\" + value.__name__ + \"')\"":
